@@ -27,6 +27,7 @@ func runC15(c *Ctx) {
 	c.rule("U2", "source order in LoadFromEnvironment: MergeConfigMap(defaults) → configuration file → linkFlagKeysToStructureKeys → Unmarshal → Validate", 4)
 	c.rule("U3", "linkFlagKeysToStructureKeys: a set flag is written with Set(); the default of an unset flag is forced only where the structure key is empty", 2)
 	c.rule("U9", "the reporting side replaces the configuration key separator in the prefix too, like the session's key replacer", 1)
+	c.rule("U10", "a validation error records the enclosing field in front of the path gathered so far, for the structure path and for the variable-name path alike (the error travels from the innermost structure outwards)", 2)
 	c.rule("U8", "ValidateEmbedded calls Validate() on every field of struct kind that implements Validator, whatever the field holds, and returns its error", 1)
 	c.rule("U6", "names with an empty prefix: prefix and separator are joined only where the prefix was found non-empty", 2)
 	c.rule("U7", "structure keys are linked to flag keys without prefix removal", 1)
@@ -336,6 +337,53 @@ func runC15(c *Ctx) {
 		})
 		c.check(replaced, "U9", "config/reported-prefix-replaced", c.pos(det.Pos()), "the key separator is replaced in the prefix of the reported names, as the session does when it looks a variable up",
 			"the prefix is put in front of the reported names as it is: with a prefix that contains the configuration key separator (\"my.app\") MY.APP_COUNT is reported whereas loading looks MY_APP_COUNT up")
+	}
+
+	// ---- U10 ----------------------------------------------------------------
+	// RecordField is called as the error travels outwards: each caller adds the field that encloses what was recorded
+	// before. The name reported (PREFIX_OUTER_INNER) is the name honoured only if the new element goes in front.
+	if rf := c.fn(cfgPkg, "(*validationError).RecordField"); rf != nil {
+		n := 0
+		allInstrs(rf, func(in ssa.Instruction) {
+			st, ok := in.(*ssa.Store)
+			if !ok {
+				return
+			}
+			fa, ok := st.Addr.(*ssa.FieldAddr)
+			if !ok {
+				return
+			}
+			if _, isSlice := st.Val.Type().Underlying().(*types.Slice); !isSlice {
+				return
+			}
+			n++
+			fieldName := fa.X.Type().Underlying().(*types.Pointer).Elem().Underlying().(*types.Struct).Field(fa.Field).Name()
+			isOld := func(v ssa.Value) bool {
+				u, ok := stripConv(v).(*ssa.UnOp)
+				if !ok || u.Op != token.MUL {
+					return false
+				}
+				ofa, ok := u.X.(*ssa.FieldAddr)
+				return ok && ofa.Field == fa.Field && sameValue(ofa.X, fa.X)
+			}
+			good, why := false, "the path stored is not built by appending the path gathered so far after the new element"
+			if cl, ok := stripConv(st.Val).(*ssa.Call); ok {
+				switch calleeFull(&cl.Call) {
+				case "builtin.append":
+					if len(cl.Call.Args) == 2 && isOld(cl.Call.Args[1]) && !isOld(cl.Call.Args[0]) {
+						good = true
+					} else if len(cl.Call.Args) == 2 && !isOld(cl.Call.Args[1]) {
+						why = "the new element is appended after the path gathered so far: the outermost field comes last and the name reported reads inside out (SUB_APP instead of APP_SUB)"
+					}
+				case "slices.Insert":
+					if k, isC := constInt(cl.Call.Args[1]); isC && k == 0 && isOld(cl.Call.Args[0]) {
+						good = true
+					}
+				}
+			}
+			c.check(good, "U10", fname(rf)+"/"+fieldName, c.ipos(st), "enclosing field recorded in front of the gathered path", why)
+		})
+		c.Extra["recorded_paths"] = n
 	}
 
 	// ---- U7 -----------------------------------------------------------------
